@@ -117,8 +117,11 @@ def expat_script(data):
     return out
 
 def well_formed(msg):
+    """Does Session._dispatch_message get a root out of this message (ncclient.xml_.parse_root reads the root's start
+    tag only)?  The verdict is the library's own: it is part of the environment of the driver, like expat."""
+    from ncclient.xml_ import parse_root
     try:
-        ET.fromstring(msg.decode('utf-8').strip())
+        parse_root(msg.decode('utf-8').strip())
         return True
     except Exception:
         return False
